@@ -736,7 +736,7 @@ class _Expr(ast.NodeTransformer):
             g = n.args[0].generators[0]
             if isinstance(g.iter, (ast.Tuple, ast.List)) and g.iter.elts and len(g.iter.elts) <= 8 and not g.ifs and isinstance(g.target, ast.Name) \
                     and not any(isinstance(e, ast.Starred) for e in g.iter.elts) and not g.is_async \
-                    and (isinstance(n.args[0], ast.GeneratorExp) or all(_pure(e, False) for e in g.iter.elts)):
+                    and all(isinstance(e, ast.Lambda) or _pure(e, False) for e in g.iter.elts):
                 import copy as _cp
 
                 class _Sub(ast.NodeTransformer):
